@@ -40,7 +40,7 @@ CHECKS.update({
    'sum/product/inner/trace/norm are shown to be folds over every element once, min/max to be min/max over exactly the elements (no foreign seed), determinant n<=4 to equal the Leibniz polynomial, all_of/any_of/none_of/isequal/issymmetric to be the boolean functions of their comparison atoms. Not decided: determinants n>4 (pivot search) and the numeric size of rounding errors (premises only).'),
  'C19': _c('proof', 'DESIGN.md §5 C19', IRF + 'copy-flow for index-tensor reads, whole-tensor frame comparison for writes, symbolic masks via gated merge',
    'Index tensors are constant sidecar cells (one compiled function, one interpretation per index vector, exhaustive for short vectors over small parents); masks are symbolic data so one interpretation covers all 2^n masks: A(mask) op= rhs leaves cell p as select(m_p, op(A_p,r_p), A_p).'),
- 'C20': _c('proof', 'DESIGN.md §5 C20', IRF + 'whole-buffer comparison of TensorMap operations on alignof(T)-aligned raw regions; alias sequences through reshape/flatten/squeeze; copy-flow maps for layout conversion and constructors',
+ 'C20': _c('other', 'DESIGN.md §5 C20', IRF + 'whole-buffer comparison of TensorMap operations on alignof(T)-aligned raw regions; alias sequences through reshape/flatten/squeeze; copy-flow maps for layout conversion and constructors',
    'Operations through TensorMap over a raw buffer leave exactly the state plain loops leave, with no alignment-requiring access (all misalignments at once); reshape/flatten/squeeze alias the source storage; tocolumnmajor/torowmajor round trips are the identity and constructors store row-major. Known finding F21: the two conversion functions implement each other\'s documented map.'),
 })
 
